@@ -118,7 +118,10 @@ Record MI (st : mstate) : Prop := {
   m_members : forall a s, a < nexta st -> In s (heap st a) -> sstat st s <> UNone;
   m_iter : forall p a len i, ppcs st p = PIter a len i ->
      (a < nexta st \/ len = 0) /\ firstn len (heap st a) = snap st p /\ NoDup (snap st p) /\ i <= len;
-  m_snap : forall p s, In s (snap st p) -> sstat st s <> UNone
+  m_snap : forall p s, In s (snap st p) -> sstat st s <> UNone;
+  m_iterlen : forall p a len i, ppcs st p = PIter a len i -> len <= length (heap st a);
+  m_types : forall t x, subm st t = Some x -> In t (mtypes st);
+  m_stopped : stopped st = true -> forall t, subm st t = None
 }.
 
 Lemma MI_init : MI minit.
@@ -213,6 +216,39 @@ Proof.
   destruct (HS _ _ _ Es) as (A & _ & _). eapply HM; eauto. eapply In_firstn_in; eauto.
 Qed.
 
+Lemma step_m_iterlen : forall st l st', MI st -> mstep st l = Some st' ->
+  forall p a len i, ppcs st' p = PIter a len i -> len <= length (heap st' a).
+Proof.
+  intros st l st' I H. pose proof (m_iterlen _ I) as HL. pose proof (m_iter _ I) as HI. pose proof (m_subm _ I) as HS.
+  minv H; unfold publish, set_sstat, set_ppc, set_subm, set_flags, set_mpanic; simpl; intros px ax lx ix E; auto.
+  all: try solve [eapply HL; eauto].
+  all: try match goal with M : cur _ _ = Some _ |- _ => destruct (cur_some _ _ _ _ _ _ M) as (Cp & Ci & Cn) end.
+  all: try solve [pose proof (HL _ _ _ _ E); destruct (HI _ _ _ _ E) as (A & _); unfold mupd; destruct (Nat.eqb ax (nexta st)) eqn:Q; mbools; auto; destruct A; lia].
+  all: unfold mupd in E; destruct (Nat.eqb px p) eqn:Ep; mbools; subst; try discriminate; try solve [eapply HL; eauto].
+  all: try solve [inversion E; subst; eapply HL; eauto].
+  (* PostSnap *)
+  inversion E; subst. destruct (subm st (ptyp st p)) as [[a' n']|] eqn:Es; inversion M0; subst; [|lia].
+  destruct (HS _ _ _ Es) as (_ & B & _). lia.
+Qed.
+
+Lemma step_m_types : forall st l st', MI st -> mstep st l = Some st' ->
+  forall t x, subm st' t = Some x -> In t (mtypes st').
+Proof.
+  intros st l st' I H. pose proof (m_types _ I) as HT.
+  minv H; unfold publish, set_sstat, set_ppc, set_subm, set_flags, set_mpanic; simpl; intros tx x E; eauto.
+  all: try solve [unfold mupd in E; destruct (Nat.eqb tx t) eqn:Q; mbools; subst; [try discriminate; left; auto | try right; eauto]].
+  discriminate.
+Qed.
+
+Lemma step_m_stopped : forall st l st', MI st -> mstep st l = Some st' ->
+  stopped st' = true -> forall t, subm st' t = None.
+Proof.
+  intros st l st' I H. pose proof (m_stopped _ I) as HP.
+  minv H; unfold publish, set_sstat, set_ppc, set_subm, set_flags, set_mpanic; simpl; intros S tx; auto; try congruence.
+  all: try solve [unfold mupd; destruct (Nat.eqb tx t); auto].
+  all: try solve [rewrite (HP S t) in M; discriminate].
+Qed.
+
 Lemma MI_step : forall st l st', MI st -> mstep st l = Some st' -> MI st'.
 Proof.
   intros st l st' I H. constructor.
@@ -220,6 +256,9 @@ Proof.
   - eapply step_m_members; eauto.
   - eapply step_m_iter; eauto.
   - eapply step_m_snap; eauto.
+  - eapply step_m_iterlen; eauto.
+  - eapply step_m_types; eauto.
+  - eapply step_m_stopped; eauto.
 Qed.
 
 
